@@ -1095,6 +1095,26 @@ def oracle(midi_io, outcome):
     return None
 
 
+def caller_edit(ns):
+    """A caller owns the NoteSequence it was handed and may edit it in place.  This edit makes THAT object ill-formed in
+    every clause of the statement (negative times, end < start, pitch / velocity outside 0..127, total_time below the note
+    ends, one more note), so that a later call which hands out the same object, or one built from it, is judged by the
+    statement itself: `when it returns, the result is well-formed` holds for every call, not only the first."""
+    for n in ns.notes:
+        n.start_time, n.end_time = -1.0 - abs(n.start_time), -2.0 - abs(n.end_time)
+        n.pitch, n.velocity = 200, -5
+    for name in ('tempos', 'time_signatures', 'key_signatures', 'pitch_bends', 'control_changes'):
+        for e in getattr(ns, name):
+            e.time = -1.0 - abs(e.time)
+    x = ns.notes.add()
+    x.pitch, x.velocity, x.start_time, x.end_time = 300, 300, 5.0, 1.0
+    ns.total_time = -1.0
+
+
+def _outcome_wire(out):
+    return ('err ' + type(out[1]).__name__) if out[0] == 'raise' else result_wire(out[1])
+
+
 # ============================================================================= capped workers
 AS_HEADROOM = 1200 * 2**20      # address space a worker may add to what the harness already maps
 PER_INPUT_S = 60                # wall-clock bound per input (SIGALRM kills the worker; recorded as hazard)
@@ -1117,6 +1137,7 @@ def eval_bytes(midi_io, pretty_midi, REC, data, with_file, tmp_path):
         out = ('raise', e)
     ctor = list(REC)
     del REC[:]
+    first = out[1] if out[0] == 'ok' else None
     rec['oracle'] = oracle(midi_io, out)
     if out[0] == 'raise':
         rec['impl'] = 'err ' + type(out[1]).__name__
@@ -1126,6 +1147,8 @@ def eval_bytes(midi_io, pretty_midi, REC, data, with_file, tmp_path):
     if len(ctor) != 1:
         rec['ctor'] = 'calls=%d' % len(ctor)
         rec['req'] = None
+        ctor = None
+        history_bytes(midi_io, REC, data, first, rec)
         return rec
     kind, val = ctor[0]
     if kind == 'err':
@@ -1155,8 +1178,10 @@ def eval_bytes(midi_io, pretty_midi, REC, data, with_file, tmp_path):
             rec['hz'].append('MemoryError after constructor returned (RLIMIT_AS)')
             rec['oracle'] = None
             rec['req'] = None
+    out = ctor = val = pm = tempo = None     # let the first run's tick table go before decoding again
+    history_bytes(midi_io, REC, data, first, rec)
+    first = None
     if with_file:
-        out = ctor = val = pm = tempo = None     # let the first run's tick table go before decoding again
         with open(tmp_path, 'wb') as f:
             f.write(data)
         try:
@@ -1172,11 +1197,55 @@ def eval_bytes(midi_io, pretty_midi, REC, data, with_file, tmp_path):
             mem2 = any(k == 'err' and v[0] == 'MemoryError' for k, v in ctor2)
             mem1 = rec.get('ctor') == 'err MemoryError' or any('MemoryError' in h for h in rec['hz'])
             if not (mem1 or mem2):
-                w2 = ('err ' + type(out2[1]).__name__) if out2[0] == 'raise' else result_wire(out2[1])
+                w2 = _outcome_wire(out2)
                 rec['file_same'] = (w2 == rec['impl'])
                 if w2 != rec['impl']:
                     rec['file_impl'] = w2[:300]
+                # history of the file variant: the caller edits what it got, the unchanged file is decoded again
+                if out2[0] == 'ok':
+                    caller_edit(out2[1])
+                ctor2 = None
+                try:
+                    out3 = ('ok', midi_io.midi_file_to_note_sequence(tmp_path))
+                except BaseException as e:  # pylint: disable=broad-except
+                    out3 = ('raise', e)
+                ctor3 = list(REC)
+                del REC[:]
+                if not (any(k == 'err' and v[0] == 'MemoryError' for k, v in ctor3) or
+                        (out3[0] == 'raise' and isinstance(out3[1], MemoryError))):
+                    rec['file_again_oracle'] = oracle(midi_io, out3)
+                    w3 = _outcome_wire(out3)
+                    if out3[0] == 'ok' and out3[1] is out2[1]:
+                        rec['file_again_alias'] = True
+                    if w3 != w2:
+                        rec['file_again_impl'] = w3[:300]
     return rec
+
+
+def history_bytes(midi_io, REC, data, first, rec):
+    """call history on one byte string: the caller edits (in place) the sequence the first decode returned, then an EQUAL
+    byte string is decoded again.  The second outcome is judged by the statement (oracle) and compared with the first."""
+    if rec.get('impl') is None or rec.get('ctor') == 'err MemoryError' or any('MemoryError' in h for h in rec['hz']):
+        return
+    if first is not None:
+        caller_edit(first)
+    del REC[:]
+    try:
+        out = ('ok', midi_io.midi_to_note_sequence(bytes(bytearray(data))))
+    except BaseException as e:  # pylint: disable=broad-except
+        out = ('raise', e)
+    ctor = list(REC)
+    del REC[:]
+    if any(k == 'err' and v[0] == 'MemoryError' for k, v in ctor) or (out[0] == 'raise' and isinstance(out[1], MemoryError)):
+        rec['hz'].append('MemoryError in the second decode of the same bytes (RLIMIT_AS)')
+        return
+    ctor = None
+    rec['again_oracle'] = oracle(midi_io, out)
+    if out[0] == 'ok' and out[1] is first:
+        rec['again_alias'] = True
+    w = _outcome_wire(out)
+    if w != rec['impl']:
+        rec['again_impl'] = w[:300]
 
 
 def _claim(cpath):
@@ -1570,6 +1639,26 @@ def process_bytes(chk, midi_io, cases):
             chk.fail('midi_file_to_note_sequence: ' + r['file_oracle'], dict(rp, variant='file'))
         if r.get('file_same') is False:
             chk.disagree('file-variant', rp, r.get('file_impl'), 'same outcome as midi_to_note_sequence: ' + str(impl)[:300])
+        # ---- call histories: decode, caller edits the result in place, decode the same bytes again
+        if 'again_oracle' in r:
+            hist.append('history: decoded twice, first result edited in between')
+            chk.count('history', None, False, ['bytes decoded twice'])
+        if 'file_again_oracle' in r:
+            chk.count('history', None, False, ['file decoded twice'])
+        HB = 'decode; the caller edits the returned sequence in place; decode the same bytes again'
+        if r.get('again_oracle'):
+            chk.fail('midi_to_note_sequence, SECOND decode of the same bytes after the caller edited the first result%s: %s' % (
+                ' (the very same object is handed out again)' if r.get('again_alias') else '', r['again_oracle']), dict(rp, history=HB))
+        elif r.get('again_alias') or r.get('again_impl'):
+            chk.disagree('history', dict(rp, history=HB), 'second decode: %s' % ('the same object' if r.get('again_alias') else r.get('again_impl')),
+                         'a new object with the outcome of the first decode: ' + str(impl)[:300])
+        if r.get('file_again_oracle'):
+            chk.fail('midi_file_to_note_sequence, SECOND decode of the unchanged file after the caller edited the first result%s: %s' % (
+                ' (the very same object is handed out again)' if r.get('file_again_alias') else '', r['file_again_oracle']),
+                dict(rp, variant='file', history=HB))
+        elif r.get('file_again_alias') or r.get('file_again_impl'):
+            chk.disagree('history', dict(rp, variant='file', history=HB), 'second decode of the file: %s' % (
+                'the same object' if r.get('file_again_alias') else r.get('file_again_impl')), 'a new object with the outcome of the first decode')
         # ---- the assumption, on the real object
         if ctor == 'ok' and (r.get('inv') or r.get('unenc')):
             n_inv += 1
@@ -1615,8 +1704,25 @@ def process_objects(chk, midi_io, n, rng):
         except BaseException as e:  # pylint: disable=broad-except
             out = ('raise', e)
         reqs.append(line)
-        impl.append(('err ' + type(out[1]).__name__) if out[0] == 'raise' else result_wire(out[1]))
+        impl.append(_outcome_wire(out))
         keep.append((tags, inv, oracle(midi_io, out)))
+        # history: the argument is left as it was (also when the call raised); the caller edits the result; same object again
+        rp = {'stream': 'objects', 'pm': line}
+        after = 'post ' + pm_wire(pm, tempo_changes(pm))
+        if after != line:
+            chk.disagree('objects-history', rp, 'midi_to_note_sequence changed the PrettyMIDI object it was given: ' + after[:600],
+                         'argument left as it was')
+        if out[0] == 'ok':
+            caller_edit(out[1])
+        try:
+            out2 = ('ok', midi_io.midi_to_note_sequence(pm))
+        except BaseException as e:  # pylint: disable=broad-except
+            out2 = ('raise', e)
+        chk.count('history', None, False, ['object decoded twice'])
+        if _outcome_wire(out2) != impl[-1] or (out2[0] == 'ok' and out2[1] is out[1]):
+            chk.disagree('objects-history', rp, 'second call on the same object after the caller edited the first result: %s' % (
+                'the same NoteSequence object' if out2[0] == 'ok' and out2[1] is out[1] else _outcome_wire(out2)[:600]),
+                'a new object with the outcome of the first call: ' + impl[-1][:600])
     model = chk.driver(EXE, reqs)
     for req, a, m, (tags, inv, orc) in zip(reqs, impl, model, keep):
         minv, wf, out = split_model(m)
@@ -1740,6 +1846,10 @@ def replay(chk, obj):
     print('constructor: %s; outcome: %s %s' % (r.get('ctor'), str(r.get('impl'))[:200], r.get('msg', '')))
     if r.get('inv'):
         print('Inv violated by the real object: %s' % r['inv'])
-    bad = r.get('oracle') or r.get('file_oracle')
+    for k, label in (('again_oracle', 'second decode of the same bytes after the caller edited the first result'),
+                     ('file_again_oracle', 'second decode of the unchanged file after the caller edited the first result')):
+        if k in r:
+            print('%s: %s' % (label, r[k] or 'well-formed / MIDIConversionError, as the statement demands'))
+    bad = r.get('oracle') or r.get('file_oracle') or r.get('again_oracle') or r.get('file_again_oracle')
     print('PROPERTY FAILS: %s' % bad if bad else 'property holds on this input')
     return 1 if bad else 0
